@@ -17,6 +17,7 @@ import CG.Driver.HNxMin
 import CG.Driver.HNxReach
 import CG.Driver.HNxTopo
 import CG.Driver.HPyJson
+import CG.Driver.HNxGml
 
 /-- stateless handlers: first token of a line selects the handler -/
 def handlers : List (String × (List String → String)) := [
@@ -39,6 +40,7 @@ def handlers : List (String × (List String → String)) := [
   ("nxreach", CG.Driver.NxReach.handle),
   ("nxtopo", CG.Driver.NxTopo.handle),
   ("pyjson", CG.Driver.PyJson.handle),
+  ("nxgml", CG.Driver.NxGml.handle),
   ("gecho", fun args => match args with
     | [t] => (match CG.Driver.GraphCodec.decGraph? t with | some g => CG.Driver.GraphCodec.encGraph g | none => "bad-op")
     | _ => "bad-op")
